@@ -187,3 +187,11 @@ package harfbuzz
 //@   modifies unspecified
 //@   loop 1 invariant [i-range] 0 <= i && i <= L && L == len(b.outInfo) && sameslice(b.outInfo, old(b.outInfo)) && sameslice(b.Info, old(b.Info)) && b.idx == old(b.idx) && cluster == old(b.Info[b.idx].Cluster)
 //@   loop 1 invariant [none-or-last] (i == L && b.outInfo[L-1].Cluster == oldCluster) || (i < L && b.outInfo[L-1].Cluster == cluster)
+//
+// Property C18, kerning: when a pair (i, j) of glyphs is kerned, everything from i to j included is flagged unsafe to
+// break (the glyphs skipped between the two, e.g. marks, and the second glyph itself: cutting anywhere inside would
+// lose the kerning). arg1 and arg2 are the start and end passed to Buffer.unsafeToBreak.
+//@ func kern C18
+//@   mode int
+//@   assert_at call unsafeToBreak#1 : [kerned-pair-flagged] arg1 == i && arg2 == j+1
+//@   modifies unspecified
